@@ -71,6 +71,8 @@ func (s *tunnelServer) serve(tunnelMetadata metadata.MD) error {
 	ctx := context.WithValue(s.stream.Context(), tunnelMetadataIncomingContextKey{}, tunnelMetadata)
 	ctx, cancel := context.WithCancel(ctx)
 	defer cancel()
+	verifServerStarted(s)
+	defer verifServerEnded(s)
 
 	for {
 		in, err := s.stream.Recv()
@@ -80,6 +82,7 @@ func (s *tunnelServer) serve(tunnelMetadata metadata.MD) error {
 			}
 			return err
 		}
+		verifYield("server.recv.gotFrame")
 
 		if f, ok := in.Frame.(*tunnelpb.ClientToServer_NewStream); ok {
 			if ok, err := s.createStream(ctx, in.StreamId, f.NewStream); err != nil {
@@ -118,6 +121,7 @@ func (s *tunnelServer) serve(tunnelMetadata metadata.MD) error {
 // itself is still valid for subsequent RPCs. This will be the case, for example, if the requested
 // method name is not implemented by the server.
 func (s *tunnelServer) createStream(ctx context.Context, streamID int64, frame *tunnelpb.NewStream) (bool, error) {
+	verifYield("server.create.begin")
 	if s.isClosing() {
 		return true, status.Errorf(codes.Unavailable, "server is shutting down")
 	}
@@ -530,6 +534,7 @@ func (st *tunnelServerStream) readMsgLocked() (data []byte, ok bool, err error) 
 
 		in, ok := st.receiver.dequeue()
 		if !ok {
+			verifYield("server.read.dequeueFalse")
 			var err error
 			if halfClosedErr := st.halfClosed.Load(); halfClosedErr != nil {
 				err = halfClosedErr.error
@@ -583,6 +588,7 @@ func (st *tunnelServerStream) serveStream(md interface{}, srv interface{}) {
 		// In case context closes asynchronously via timeout,
 		// we need to make sure receiver is closed promptly.
 		<-st.ctx.Done()
+		verifYield("server.watcher.beforeCancel")
 		st.receiver.cancel()
 	}()
 
@@ -604,8 +610,11 @@ func (st *tunnelServerStream) serveStream(md interface{}, srv interface{}) {
 
 func (st *tunnelServerStream) finishStream(err error) {
 	st.cancel()
+	verifYield("server.finish.afterCancel")
 	st.svr.removeStream(st.streamID)
+	verifYield("server.finish.afterRemove")
 	st.halfClose(err)
+	verifYield("server.finish.beforeWrite")
 
 	st.writeMu.Lock()
 	defer st.writeMu.Unlock()
